@@ -318,7 +318,7 @@ func init() {
 	Defs["C17"] = &Def{
 		ID:                 "C17",
 		RacesAreViolations: true,
-		Rule: "harness threads issue Write(tagged payload)/Read/Used on keys forced to collide (same hash; different hash same slot; 1-, 2- and 4-slot tables; equal/greater/smaller replacement value), with the non-atomic `used++` split into load and store by the rewriter. ALL interleavings of every harness (no bound); thorough adds 3x2-, crossing- and 4-thread harnesses explored to deviation bound 7. Oracle per complete interleaving: no data race (every plain field / element access of transposition.go is wrapped by the rewriter and checked against vector clocks that the atomics of the interleaving advance: two accesses to the same byte, one a store, unordered by happens-before = race); each hit returns one single store's tuple for that hash; the call/return history is linearizable w.r.t. the sequential table incl. the replacement rule (brute force over <= 6 calls, every verdict cross-checked against porcupine v1.3.0); fill fraction within [0,1] whenever read and, at quiescence, equal to the number of occupied slots. distinct_nontrivial = distinct call/return histories among executions in which two threads touched a common object",
+		Rule:               "harness threads issue Write(tagged payload)/Read/Used on keys forced to collide (same hash; different hash same slot; 1-, 2- and 4-slot tables; equal/greater/smaller replacement value), with the non-atomic `used++` split into load and store by the rewriter. ALL interleavings of every harness (no bound); thorough adds 3x2-, crossing- and 4-thread harnesses explored to deviation bound 7. Oracle per complete interleaving: no data race (every plain field / element access of transposition.go is wrapped by the rewriter and checked against vector clocks that the atomics of the interleaving advance: two accesses to the same byte, one a store, unordered by happens-before = race); each hit returns one single store's tuple for that hash; the call/return history is linearizable w.r.t. the sequential table incl. the replacement rule (brute force over <= 6 calls, every verdict cross-checked against porcupine v1.3.0); fill fraction within [0,1] whenever read and, at quiescence, equal to the number of occupied slots. distinct_nontrivial = distinct call/return histories among executions in which two threads touched a common object",
 		Gen: func(tier string) []explore.Scenario {
 			ps := []ttParams{
 				{32, [][]ttOp{{w(7, 1, 1, 1)}, {w(9, 1, 2, 2)}}},                                // two writers, one slot, second more valuable
